@@ -35,8 +35,13 @@ func main() {
 	known := flag.String("known", "/verif/known_findings.json", "known findings file")
 	replays := flag.String("replays", "/verif/replays", "directory for replay files")
 	list := flag.Bool("list", false, "list checks")
+	fingerprint := flag.Bool("fingerprint", false, "print the encoding fingerprint of the C11 corpus (free-running runtime) and exit")
 	flag.Parse()
 
+	if *fingerprint {
+		fmt.Println(checks.Fingerprint())
+		return
+	}
 	if *list {
 		for _, id := range checks.IDs() {
 			c := checks.Registry[id]
